@@ -51,6 +51,34 @@ def mutate(rng, data):
         d = [rng.randrange(256) for _ in range(rng.randrange(0, 12))]
     return d
 
+def venc(n):
+    out = []
+    while n >= 128:
+        out.append((n & 127) | 128); n >>= 7
+    out.append(n)
+    return out
+
+BIG_RUNS = [(1 << 61) - 1, (1 << 61) - 2, 1 << 60, (1 << 62) - 1, (1 << 32), (1 << 32) - 1, 8454273, 8454274, 8454272, 1 << 23, 1 << 20]
+def gen_token_payload(rng):
+    """structured adversarial payload: a sequence of well-formed bitfield-rle tokens whose claimed
+    lengths are chosen around the arithmetic and size limits (sums near 2^64, near MAX_DECODED_LEN)"""
+    out = []
+    k = rng.choice([1, 2, 3, 7, 8, 9, 9, 10, 12, 16, 17])
+    mode = rng.randrange(4)
+    for _ in range(k):
+        r = rng.random()
+        if mode == 0 or r < 0.55:          # run token
+            l = rng.choice(BIG_RUNS) if (mode in (0, 1) or rng.random() < 0.4) else rng.choice([0, 1, 2, 31, 32, 33, 200, 5000])
+            if mode == 0:
+                l = rng.choice(BIG_RUNS[:4])
+            out += venc(l * 4 + 1 + rng.choice([0, 2]))
+        else:                               # literal token, sometimes lying about its length
+            l = rng.choice([0, 1, 2, 3, 5, 9])
+            out += venc(2 * l) + [rng.randrange(1, 255) for _ in range(l if rng.random() < 0.8 else max(0, l - 1))]
+    if mode == 3 and rng.random() < 0.5:    # wrap exactly to a small value: 8*(2^61-1) + 12 = 2^64 + 4
+        out = venc(((1 << 61) - 1) * 4 + 1) * 8 + venc(12 * 4 + 1)
+    return out
+
 CORPUS_DEC = [
     ("00000000", "80"),                                   # F1: truncated varint -> index panic
     ("-", "ffffffffffffffffffff01"),                     # F1: 11-byte varint -> multiply overflow (dev profile)
@@ -58,6 +86,8 @@ CORPUS_DEC = [
     ("-", "ffffffffffffffff7f"),                          # 9-byte varint, largest accepted shape
     ("-", "ffffffffffffffffff01"),                        # 10-byte varint
     ("00000000", "0401"), ("-", "-"), ("01020304", "00"), ("-", "0a"), ("-", "05"), ("-", "fdff03"),
+    ("-", "fdffffffffffffff7f" * 9),                      # nine maximal run tokens: the claimed lengths sum past 2^64
+    ("-", "fdffffffffffffff7f" * 8 + "31"),               # ... wrapping to 4 in a 64-bit accumulator
 ]
 
 def alloc_limit(ctx):
@@ -133,6 +163,10 @@ def run(ctx):
         for _ in range(rng.choice([1, 1, 2, 3])):
             p = mutate(rng, p)
         dec_ops.append("dec %s %s" % (HEX(gen_bytes(rng, rng.choice([0, 4, 4, 7]), 2)), HEX(p)))
+    n_tok = 20000 if ctx.thorough else 3000
+    for i in range(n_tok):
+        dec_ops.append("dec %s %s" % (HEX(gen_bytes(rng, rng.choice([0, 4]), 2)), HEX(gen_token_payload(rng))))
+    dist["dec_token_sequences"] = n_tok
     maxlen = 3 if ctx.thorough else 2
     refs = ["-", "01ff0000"]
     n_exh = 0
@@ -163,7 +197,7 @@ def run(ctx):
             ctx.count(nontrivial_key=("dec", op) if strip(r).startswith("ok") or "err" in r else None)
     ctx.cov["rule"] = ("encode cases: seeded structured generator (0x00/0xFF runs across varint boundaries 31/32/33, lengths 0..5000, "
                        "varying/empty inputs) + exhaustive {00,ff,01}^<=3 pairs; decode cases: every encoded payload (round trip), "
-                       "corpus of F1 witnesses, seeded mutations of real payloads, and ALL byte strings of length <= %d; "
+                       "corpus of F1 witnesses, seeded mutations of real payloads, structured token sequences whose claimed run lengths sit at the arithmetic and size limits (sums around 2^64 and MAX_DECODED_LEN), and ALL byte strings of length <= %d; "
                        "non-trivial = distinct payloads that decode to >=1 input or are rejected with an error" % maxlen)
     ctx.cov["exhaustive"] = False
     ctx.assumptions += ["usize is 64 bit", "bitfield-rle 0.2.1 / varinteger 1.0.6 as vendored in the cargo registry (modelled line by line, correspondence-checked)",
